@@ -167,6 +167,8 @@ class PyBytesIO(object):
     def write(self, data):
         self._chk()
         n = len(data)
+        if n == 0:
+            return 0
         cur = len(self._buf)
         pos = self._pos
         if pos == cur:
